@@ -1206,7 +1206,7 @@ impl<'de> de::Deserializer<'de> for &mut Deserializer<'de> {
                         self.wire_type
                     )));
                 }
-                let value = visitor.visit_seq(Compound::new(
+                let mut compound = Compound::new(
                     self,
                     Style::Struct {
                         expect,
@@ -1214,7 +1214,11 @@ impl<'de> de::Deserializer<'de> for &mut Deserializer<'de> {
                         expect_idx: 0,
                         wire_idx: 0,
                     },
-                ))?;
+                );
+                let value = visitor.visit_seq(&mut compound)?;
+                // A tuple visitor stops after its own arity. Surplus fields of the
+                // wire tuple are dropped, like surplus fields of a record.
+                while de::SeqAccess::next_element::<de::IgnoredAny>(&mut compound)?.is_some() {}
                 Ok(value)
             }
             _ => check!(false),
